@@ -50,6 +50,29 @@ func c08Case(fi int, msg, dst []byte) (key, detail string) {
 		return h.name + "/input-modified", desc
 	}
 
+	// the same call with message and DST as adjacent windows of ONE caller buffer (frame[:n], frame[n:]), so that
+	// the message's spare capacity IS the DST: a natural way to hold a parsed request
+	if len(msg)+len(dst) <= 2048 {
+		frame := make([]byte, len(msg)+len(dst), len(msg)+len(dst)+8)
+		copy(frame, msg)
+		copy(frame[len(msg):], dst)
+		snap := append([]byte{}, frame...)
+
+		var e3 *secp256k1.Element
+
+		if p := catchStr(func() { e3 = h.f(frame[:len(msg)], frame[len(msg):]) }); p != "" {
+			return h.name + "/panic", desc + " (adjacent windows): " + p
+		}
+
+		if !bytes.Equal(e3.Encode(), ref.Enc(want)) {
+			return h.name + "/differs-from-RFC9380/msg-and-DST-adjacent-in-one-buffer", desc
+		}
+
+		if !bytes.Equal(frame, snap) {
+			return h.name + "/input-modified/msg-and-DST-adjacent-in-one-buffer", desc
+		}
+	}
+
 	return "", ""
 }
 
